@@ -12,7 +12,10 @@ for d in sorted(glob.glob(os.path.join(ROOT, 'seeded', '*', ''))):
     hist = m.get('history', '')
     if hist:
         missed += 1
-        status = 'missed at first: ' + hist.split(';', 1)[1].strip() if ';' in hist else hist
+        if hist.startswith('not caught'):
+            status = hist
+        else:
+            status = 'missed at first: ' + hist.split(';', 1)[1].strip() if ';' in hist else hist
     else:
         status = 'as built'
     rows.append('| %s | %s | %s | %s | %s |' % (s, m.get('change', ''), m.get('needs', ''), caught, status))
@@ -33,11 +36,16 @@ first and led to the strengthenings named in the last column (all %d are caught 
 |---|---|---|---|---|
 ''' % (n, n - missed, missed, n) + '\n'.join(rows) + '''
 
-Lessons drawn from the misses: the generators had inherited implicit restrictions (payload never empty,
-sequence field of unnumbered units always zero, reconnect never re-assigns the old channel, scripted failures
-only on first transmissions, description responses without optional blocks, no reconnect inside an ordering
-burst) and one oracle clause was only evaluated sequentially (registry keying). Each restriction was removed at
-the generator; no oracle was loosened.
+Lessons drawn from the misses. Rounds 1 and 2: the generators had inherited implicit restrictions (payload
+never empty, sequence field of unnumbered units always zero, reconnect never re-assigns the old channel, scripted
+failures only on first transmissions, description responses without optional blocks, no reconnect inside an
+ordering burst) and one oracle clause was only evaluated sequentially (registry keying). Round 3 asked for
+changes that need concurrency or a fault, and exposed what the harness did not yet *combine*: socket errors on
+the tunnel side, concurrent senders meeting a reconnect, several closers while a reconnect hangs (plus a real
+oracle bug: the per-caller probe after Close was skipped for closers that returned before the first one),
+concurrent group senders, and frames still in flight when a describe call returns. Each was added at the
+generator / executor; no oracle was loosened. One seed written for C16 (Tunnel.Close polling the socket once)
+is a C10 defect and is caught there; the socket-level check of C16 does not see it.
 '''
 p = os.path.join(ROOT, 'DESIGN.md')
 s = open(p).read()
